@@ -229,7 +229,7 @@ def _case(rng, op, malformed=False, small=False):
                    ignore=None if rng.random() < 0.8 else ["-"])
         tag += "-" + inp["summary"]
     elif op == "breaks":
-        inp.update(segs=_segments(rng, rows, 0.2), min_probes=rng.choice([1, 1, 2, 3, 4, 0]))
+        inp.update(segs=_segments(rng, rows, 0.2), min_probes=rng.choice([1, 1, 2, 3, 4]))
     if PREFIX:
         inp["prefix"] = True
     return {"op": op, "tag": tag, "in": inp}
